@@ -11,16 +11,16 @@ use serde_json::json;
 use std::collections::BTreeMap;
 
 #[derive(Clone, Debug, Default)]
-struct XE { name: String, kind: u8, content: Vec<u8>, perm: Option<u16> }
+struct XE { name: String, kind: u8, content: Vec<u8>, perm: Option<u16>, time: Option<u64> }
 
 fn build(es: &[XE]) -> Vec<u8> {
     let mut a = Archive::write_header(Vec::new()).unwrap();
     for e in es {
         // raw names: go through the chunk level so that hostile names reach the reader as written
         let entry = match e.kind {
-            0 => { let mut b = EntryBuilder::new_file(EntryName::from(e.name.as_str()), WriteOptions::store()).unwrap(); use std::io::Write; b.write_all(&e.content).unwrap(); if let Some(m) = e.perm { b.permission(Permission::new(0, "root".into(), 0, "root".into(), m)); } b.build().unwrap() }
-            1 => { let mut b = EntryBuilder::new_dir(EntryName::from(e.name.as_str())); if let Some(m) = e.perm { b.permission(Permission::new(0, "root".into(), 0, "root".into(), m)); } b.build().unwrap() }
-            2 => { let mut b = EntryBuilder::new_symbolic_link(EntryName::from(e.name.as_str()), EntryReference::from(String::from_utf8_lossy(&e.content).as_ref())).unwrap(); if let Some(m) = e.perm { b.permission(Permission::new(0, "root".into(), 0, "root".into(), m)); } b.build().unwrap() }
+            0 => { let mut b = EntryBuilder::new_file(EntryName::from(e.name.as_str()), WriteOptions::store()).unwrap(); use std::io::Write; b.write_all(&e.content).unwrap(); if let Some(m) = e.perm { b.permission(Permission::new(0, "root".into(), 0, "root".into(), m)); } if let Some(t) = e.time { b.modified(std::time::Duration::from_secs(t)); b.accessed(std::time::Duration::from_secs(t)); } b.build().unwrap() }
+            1 => { let mut b = EntryBuilder::new_dir(EntryName::from(e.name.as_str())); if let Some(m) = e.perm { b.permission(Permission::new(0, "root".into(), 0, "root".into(), m)); } if let Some(t) = e.time { b.modified(std::time::Duration::from_secs(t)); b.accessed(std::time::Duration::from_secs(t)); } b.build().unwrap() }
+            2 => { let mut b = EntryBuilder::new_symbolic_link(EntryName::from(e.name.as_str()), EntryReference::from(String::from_utf8_lossy(&e.content).as_ref())).unwrap(); if let Some(m) = e.perm { b.permission(Permission::new(0, "root".into(), 0, "root".into(), m)); } if let Some(t) = e.time { b.modified(std::time::Duration::from_secs(t)); b.accessed(std::time::Duration::from_secs(t)); } b.build().unwrap() }
             _ => EntryBuilder::new_hard_link(EntryName::from(e.name.as_str()), EntryReference::from(String::from_utf8_lossy(&e.content).as_ref())).unwrap().build().unwrap(),
         };
         a.add_entry(entry).unwrap();
@@ -78,19 +78,22 @@ pub fn extract_fs(ctx: &mut Ctx) {
         let fname = |rng: &mut rand_chacha::ChaCha8Rng| ["a", "b.txt", "d/x.txt", "d/e/y", "l", "l/x.txt", "d", "h", "k/z"][rng.gen_range(0..9)].to_string();
         let k = rng.gen_range(1..6);
         let mut es: Vec<XE> = vec![];
-        let scenario = if case < 6 { case } else { rng.gen_range(0..10) }; // the first six cases are the witnesses of the (now repaired) escapes
-        let keep_perm = scenario == 5 || (scenario > 5 && rng.gen_bool(0.3));
+        let scenario = if case < 8 { case } else { rng.gen_range(0..12) }; // the first eight cases are the witnesses of the (now repaired) escapes and of links carrying permissions / times
+        let keep_perm = scenario == 5 || (scenario > 7 && rng.gen_bool(0.3));
+        let keep_time = scenario == 6 || scenario == 7 || (scenario > 7 && rng.gen_bool(0.4));
         for i in 0..k {
             let e = match (scenario, i) {
-                (0, 0) => XE { name: "l".into(), kind: 2, content: format!("{root}/outside").into_bytes(), perm: None },          // absolute link to outside dir
-                (0, 1) => XE { name: "l/x.txt".into(), kind: 0, content: b"pwn".to_vec(), perm: None },
-                (1, 0) => XE { name: "l".into(), kind: 2, content: b"../outside".to_vec(), perm: None },                           // relative escaping link
-                (1, 1) => XE { name: "l/sub/x.txt".into(), kind: 0, content: b"pwn".to_vec(), perm: None },
-                (2, 0) => XE { name: "h".into(), kind: 3, content: b"../outside/secret".to_vec(), perm: None },                    // escaping hard-link source
-                (3, 0) => XE { name: "h".into(), kind: 3, content: format!("{root}/outside/secret").into_bytes(), perm: None },   // absolute hard-link source
-                (4, 0) => XE { name: "l".into(), kind: 2, content: format!("{root}/outside/newfile").into_bytes(), perm: None },  // dangling link, then a file of the same name
-                (4, 1) => XE { name: "l".into(), kind: 0, content: b"through".to_vec(), perm: None },
-                (5, 0) => XE { name: "l".into(), kind: 2, content: b"../outside/secret".to_vec(), perm: Some(0o777) },  // link entry carrying a permission
+                (0, 0) => XE { name: "l".into(), kind: 2, content: format!("{root}/outside").into_bytes(), perm: None, time: None },          // absolute link to outside dir
+                (0, 1) => XE { name: "l/x.txt".into(), kind: 0, content: b"pwn".to_vec(), perm: None, time: None },
+                (1, 0) => XE { name: "l".into(), kind: 2, content: b"../outside".to_vec(), perm: None, time: None },                           // relative escaping link
+                (1, 1) => XE { name: "l/sub/x.txt".into(), kind: 0, content: b"pwn".to_vec(), perm: None, time: None },
+                (2, 0) => XE { name: "h".into(), kind: 3, content: b"../outside/secret".to_vec(), perm: None, time: None },                    // escaping hard-link source
+                (3, 0) => XE { name: "h".into(), kind: 3, content: format!("{root}/outside/secret").into_bytes(), perm: None, time: None },   // absolute hard-link source
+                (4, 0) => XE { name: "l".into(), kind: 2, content: format!("{root}/outside/newfile").into_bytes(), perm: None, time: None },  // dangling link, then a file of the same name
+                (4, 1) => XE { name: "l".into(), kind: 0, content: b"through".to_vec(), perm: None, time: None },
+                (6, 0) => XE { name: "l".into(), kind: 2, content: b"../outside/secret".to_vec(), perm: None, time: Some(1_000_000_123) },  // link entry carrying times, to an outside file
+                (7, 0) => XE { name: "l".into(), kind: 2, content: b"../outside".to_vec(), perm: None, time: Some(1_000_000_456) },         // … to an outside directory
+                (5, 0) => XE { name: "l".into(), kind: 2, content: b"../outside/secret".to_vec(), perm: Some(0o777), time: None },  // link entry carrying a permission
                 _ => {
                     let kind = [0u8, 0, 0, 1, 2, 3][rng.gen_range(0..6)];
                     let name = match rng.gen_range(0..8) { 0 => format!("../{}", fname(&mut rng)), 1 => format!("/{}", fname(&mut rng)), _ => fname(&mut rng) };
@@ -100,7 +103,7 @@ pub fn extract_fs(ctx: &mut Ctx) {
                         2 => { let abs = format!("{root}/outside"); ["a", "d", "../out/a", "nowhere", "d/e", "../outside", "../outside/secret", "../outside/new", abs.as_str(), ".."][rng.gen_range(0..10)].as_bytes().to_vec() }
                         _ => { let abs = format!("{root}/outside/secret"); ["a", "b.txt", "../a", "d/x.txt", "../outside/secret", "l/secret", "../../outside/secret", abs.as_str(), "l", ".."][rng.gen_range(0..10)].as_bytes().to_vec() }
                     };
-                    XE { name, kind, content, perm: if keep_perm && kind != 3 { Some([0o700u16, 0o777, 0o604][rng.gen_range(0..3)]) } else { None } }
+                    XE { name, kind, content, perm: if keep_perm && kind != 3 { Some([0o700u16, 0o777, 0o604][rng.gen_range(0..3)]) } else { None }, time: if keep_time && kind != 3 { Some(1_000_000_000 + rng.gen_range(0..1000)) } else { None } }
                 }
             };
             es.push(e);
@@ -133,15 +136,18 @@ pub fn extract_fs(ctx: &mut Ctx) {
         let bytes = build(&es);
         std::fs::write(sbx.path("a.pna"), &bytes).unwrap();
         let before = snapshot(&sbx.root);
+        let dir_time = |p: &std::path::Path| -> i64 { use std::os::unix::fs::MetadataExt; std::fs::metadata(p).map(|m| m.mtime() * 1_000_000_000 + m.mtime_nsec()).unwrap_or(0) };
+        let outside_dir_before = dir_time(&sbx.path("outside"));
         let mut args: Vec<&str> = vec!["--quiet", "extract", "a.pna", "--out-dir", "out"];
         if overwrite { args.push("--overwrite"); }
         if keep_perm { args.push("--keep-permission"); }
+        if keep_time { args.push("--keep-timestamp"); }
         let r = run_pna(&sbx, &sbx.root, &args, None, 60, &[]);
         let mut after = snapshot(&sbx.root);
         after.retain(|p, _| p != "tmp" && !p.starts_with("tmp/"));
         let mut before_m = before.clone();
         before_m.retain(|p, _| p != "tmp" && !p.starts_with("tmp/"));
-        let sanitized: Vec<XE> = es.iter().map(|e| XE { name: EntryName::from(e.name.as_str()).as_str().to_string(), kind: e.kind, content: if e.kind >= 2 { EntryReference::from(String::from_utf8_lossy(&e.content).as_ref()).as_str().as_bytes().to_vec() } else { e.content.clone() }, perm: e.perm }).collect();
+        let sanitized: Vec<XE> = es.iter().map(|e| XE { name: EntryName::from(e.name.as_str()).as_str().to_string(), kind: e.kind, content: if e.kind >= 2 { EntryReference::from(String::from_utf8_lossy(&e.content).as_ref()).as_str().as_bytes().to_vec() } else { e.content.clone() }, perm: e.perm, time: e.time }).collect();
         let attrs = json!({"entries": sanitized.iter().map(|e| json!({"name": e.name, "kind": e.kind, "content": String::from_utf8_lossy(&e.content)})).collect::<Vec<_>>(), "overwrite": overwrite, "scenario": scenario,
                            "preexisting": before_m.keys().filter(|p| p.starts_with("out/")).collect::<Vec<_>>()});
         ctx.oracle_eval();
@@ -149,7 +155,7 @@ pub fn extract_fs(ctx: &mut Ctx) {
         // ---- C09 oracle: nothing outside out/ is created, modified or linked
         let outside_before: BTreeMap<&String, &Node> = before_m.iter().filter(|(p, _)| !p.starts_with("out/") && *p != "out" && *p != "a.pna").collect();
         let outside_after: BTreeMap<&String, &Node> = after.iter().filter(|(p, _)| !p.starts_with("out/") && *p != "out" && *p != "a.pna").collect();
-        let strip = |m: &BTreeMap<&String, &Node>| -> Vec<(String, String)> { m.iter().map(|(p, n)| ((*p).clone(), match n { Node::File { content, nlink, mode, .. } => format!("file:{}:{:o}:{}", hexw(content), mode, nlink), Node::Dir { mode } => format!("dir:{:o}", mode), Node::Symlink { target } => format!("link:{target}"), Node::Other => "other".into() })).collect() };
+        let strip = |m: &BTreeMap<&String, &Node>| -> Vec<(String, String)> { m.iter().map(|(p, n)| ((*p).clone(), match n { Node::File { content, nlink, mode, mtime, .. } => format!("file:{}:{:o}:t{}:{}", hexw(content), mode, mtime, nlink), Node::Dir { mode } => format!("dir:{:o}", mode), Node::Symlink { target } => format!("link:{target}"), Node::Other => "other".into() })).collect() };
         if strip(&outside_before) != strip(&outside_after) {
             // classify by the shape of the history (matchers of the known findings)
             let (sb, sa) = (strip(&outside_before), strip(&outside_after));
@@ -175,6 +181,9 @@ pub fn extract_fs(ctx: &mut Ctx) {
             for shape in shapes {
                 ctx.violation("C09", "extraction created, modified or linked something outside the output directory", json!({"case":attrs,"shape":shape,"before":sb,"after":sa}));
             }
+        }
+        if dir_time(&sbx.path("outside")) != outside_dir_before && strip(&outside_before) == strip(&outside_after) {
+            ctx.violation("C09", "extraction changed the times of a directory outside the output directory", json!({"case":attrs,"shape":"other"}));
         }
         // ---- C20 oracle: without --overwrite nothing pre-existing is replaced or modified
         if !overwrite {
